@@ -387,8 +387,16 @@ class _resolve_called_lambdas(ast.NodeTransformer):
         if isinstance(node.func, ast.Lambda):
             lambda_node = node.func
 
-            # Ensure the lambda has arguments and a body
-            if len(lambda_node.args.args) == len(node.args):
+            # Only a lambda with plain parameters, called with exactly one positional
+            # argument for each of them, is resolved here.
+            l_args = lambda_node.args
+            plain = not (l_args.posonlyargs or l_args.vararg or l_args.kwonlyargs or l_args.kwarg)
+            if (
+                plain
+                and len(l_args.args) == len(node.args)
+                and len(node.keywords) == 0
+                and not any(isinstance(a, ast.Starred) for a in node.args)
+            ):
                 arg_map = {
                     lambda_node.args.args[i].arg: self.visit(node.args[i])
                     for i in range(len(lambda_node.args.args))
